@@ -29,7 +29,10 @@ ASSUMPTIONS = [
 RULE = ('a row table is rendered under a seeded layout (column order with skipped columns / extra captures / description template / location; '
         'delimiter none ; | tab regex; header or not; both decimal conventions; {amount} {-amount} {+amount} negate_amount; amount styles plain, '
         'thousands, currency, parentheses; quoted cells with embedded delimiters, quotes and newlines; CRLF/LF; final newline or not).  Then '
-        'exactly one row is damaged (too few cells, bad date, empty description, unparsable amount, zero, nan/inf, blank line) or the file is cut.  '
+        'exactly one row is damaged (too few cells, bad date, empty description, unparsable amount, zero, nan/inf, blank line) or the file is cut, '
+        'or the undamaged file is read under a read fault (EIO/ESTALE/ETIMEDOUT/EAGAIN/EINTR/EBUSY after k characters, at the first read or at '
+        'the read that would report EOF; once or persistently), or one byte in it is not UTF-8 - then the reader may refuse the file but never hands '
+        'out other transactions than the clean read.  One file in sixteen has 130-420 rows.  '
         'distinct_nontrivial counts distinct (layout class, delimiter, decimal, sign mode, corruption class, position) tuples.')
 
 CLASSES = ['too-few-cells', 'bad-date', 'empty-description', 'bad-amount', 'zero', 'nonfinite', 'blank-line']
@@ -172,7 +175,9 @@ ODD_SEPARATORS = ['\x0b', '\x0c', '\x1c', '\x1d', '\x1e', '\x85', '\u2028', '\u2
 def build_case(rng, tier):
     lay = st.gen_layout(rng, rich=True)
     rich = lay['delimiter'] != 'regex'
-    rows = st.gen_rows(rng, rng.randint(1, 8), first_id=1, allow_rich=rich)
+    big = rng.random() < 0.06
+    # sizes vary: now and then a statement of a few hundred rows (longer than any read-ahead block or small cache)
+    rows = st.gen_rows(rng, rng.randint(130, 420) if big else rng.randint(1, 8), first_id=1, allow_rich=rich)
     if rich and lay['mode'] == 1 and lay['eol'] == '\n' and rng.random() < 0.25:
         # a quoted cell spanning several physical lines, some of them empty or blank
         r = rng.choice(rows)
@@ -205,15 +210,19 @@ def build_case(rng, tier):
     classes = list(CLASSES)
     if lay['mode'] == 2:
         classes.remove('empty-description')
+    if big:
+        classes = rng.sample(classes, 2)
     for cls in classes:
         k = rng.randrange(len(rows))
+        if big and rng.random() < 0.6:
+            k = rng.randrange(len(rows) * 2 // 3, len(rows))
         raw = damage(rng, lay, rows[k], cls)
         if raw is None:
             continue
         rows2 = [dict(r) for r in rows]
         rows2[k]['raw'] = raw
         pos = 'only' if len(rows) == 1 else 'first' if k == 0 else 'last' if k == len(rows) - 1 else 'middle'
-        case['faults'].append({'class': cls, 'row': rows[k]['id'], 'position': pos, 'text': st.render(lay, rows2)})
+        case['faults'].append({'class': cls, 'row': rows[k]['id'], 'position': pos, 'text': st.render(lay, rows2), 'raws': {str(rows[k]['id']): raw}})
     if rng.random() < 0.35:
         # a second source whose amount cells are textually the same but read under the other conventions:
         # what the reader makes of a file must not depend on a file it read before
@@ -249,7 +258,7 @@ def build_case(rng, tier):
             rows2[j]['raw'] = st.join_cells(lay, cells)
         if ok:
             case['faults'].append({'class': 'bad-date-run', 'row': rows[k]['id'], 'row2': rows[k + 1]['id'], 'position': 'middle',
-                                   'text': st.render(lay, rows2)})
+                                   'text': st.render(lay, rows2), 'raws': {str(rows[j]['id']): rows2[j]['raw'] for j in (k, k + 1)}})
     text = case['text']
     lines = st.render_lines(lay, rows)
     # record end offsets (in characters) so that "rows that end before the cut" is well defined
@@ -268,6 +277,35 @@ def build_case(rng, tier):
         if not lay['final_newline'] and cut == len(text):
             complete = [r['id'] for r in rows]
         case['faults'].append({'class': 'truncate', 'cut': cut, 'complete': complete, 'position': 'tail', 'text': text[:cut]})
+    # the disk or network share hiccups while the (undamaged) file is being read: once (a retry would succeed) or for good
+    n_chars = len(text)
+    for _ in range(2):
+        how = {'kind': 'eio', 'errno': rng.choice(['EIO', 'EIO', 'ESTALE', 'ETIMEDOUT', 'EAGAIN', 'EINTR', 'EBUSY'])}
+        r = rng.random()
+        if r < 0.25:
+            how['at_eof'] = True
+            pos = 'eof'
+        else:
+            how['after'] = rng.randint(1, max(1, n_chars - 1)) if r < 0.85 else 0
+            pos = 'start' if how['after'] == 0 else 'first-half' if how['after'] * 2 < n_chars else 'second-half'
+        if rng.random() < 0.6:
+            how['once'] = True
+        case['faults'].append({'class': 'read-fault-once' if how.get('once') else 'read-fault', 'how': how, 'position': pos})
+    # one byte that is not UTF-8 inside one description (an export in a legacy code page): the file is either refused as a whole
+    # or read row by row - never partly, never twice
+    cands = [j for j, r in enumerate(rows) if '\n' not in r['desc'] and 'raw' not in r and lay['mode'] == 1]
+    if cands and (big or rng.random() < 0.4):
+        j = rng.choice(cands[len(cands) // 2:] if big else cands)
+        marker = 'r%d' % rows[j]['id']
+        # the rest of the file is plain ASCII (so that every ASCII-compatible fallback decoding reads the other rows alike)
+        clean = ''.join(ch if ord(ch) < 128 else {'É': 'E', 'Ü': 'U', '£': '$', '€': '$'}.get(ch, '~') for ch in text)
+        lines_b = clean.encode('ascii')
+        tok = (' ' + marker).encode()
+        at = lines_b.find(tok)
+        if at > 0 and lines_b.count(tok) == 1:
+            bad = lines_b[:at] + rng.choice([b'\xe9', b'\xff', b'\xc3', b'\xa0']) + lines_b[at:]
+            case['faults'].append({'class': 'bad-utf8', 'row': rows[j]['id'], 'position': 'late' if j * 2 >= len(rows) else 'early',
+                                   'bytes': bad.decode('latin-1'), 'clean': clean, 'offset': at})
     return case
 
 
@@ -282,14 +320,20 @@ def execute(case, scratch):
     laycls = 'mode%d%s%s%s' % (lay['mode'], '+extras' if lay['extras'] and lay['mode'] == 1 else '', '+skip' if lay['skips'] else '',
                                '+loc' if lay['location'] else '')
 
-    def parse(text):
+    def parse(text, reads=None):
         util.write_world(world, {'data/s.csv': text})
         path = os.path.join(world, 'data/s.csv')
-        r = proc.run_func(world, lambda: parse_file(path, case['settings'], case['source']), {'net': 'down'}, ctl_parent=ctlp)
+        plan = {'net': 'down'}
+        if reads:
+            plan['reads'] = {'data/s.csv': reads}
+        r = proc.run_func(world, lambda: parse_file(path, case['settings'], case['source']), plan, ctl_parent=ctlp)
         if r.exit != 0 or r.result is None:
             raise proc.HarnessError('parse process failed: %s' % r.err[-1500:])
         count['parses'] += 1
+        fired[0] = any(e.get('k') == 'readfault' for e in r.events)
         return r.result
+
+    fired = [False]
 
     def sched(fault):
         return {'property': ID, 'case': dict(case, faults=[fault] if fault else [])}
@@ -336,6 +380,42 @@ def execute(case, scratch):
         for g in got:
             by_id.setdefault(rid_of(g['description']), []).append(g)
         for f in case['faults']:
+            if f['class'] in ('read-fault', 'read-fault-once', 'bad-utf8'):
+                if 'txns' not in base:
+                    continue
+                ref = got
+                if f['class'] == 'bad-utf8':
+                    clean = parse(f['clean'])
+                    if 'txns' not in clean:
+                        continue
+                    ref = clean['txns']
+                    res = parse(f['bytes'].encode('latin-1'))
+                else:
+                    res = parse(case['text'], reads=f['how'])
+                    if not fired[0]:
+                        count['read_faults_not_fired'] = count.get('read_faults_not_fired', 0) + 1
+                        continue
+                sets['tuples'].add('%s|%s|%s|%s|%s|%s' % (laycls, lay['delimiter'], lay['decimal'], 'n/a', f['class'], f['position']))
+                count['fired.' + f['class']] = count.get('fired.' + f['class'], 0) + 1
+                log.append(['fault', f['class'], util.digest(res)])
+                if 'exception' in res:
+                    continue          # the file is refused as a whole: nothing wrong was handed out
+                have = res['txns']
+                if f['class'] == 'bad-utf8':
+                    # read under some fallback decoding: still one transaction per written row, in order, with the written values;
+                    # only the damaged description may be spelled differently
+                    ok = len(have) == len(ref) and all(
+                        same_txn(a, b) or (rid_of(b['description']) == f['row'] and same_txn(dict(a, description=''), dict(b, description='')))
+                        for a, b in zip(have, ref))
+                else:
+                    ok = len(have) == len(ref) and all(same_txn(a, b) for a, b in zip(have, ref))
+                if not ok:
+                    violations.append({'invariant': 'ISO', 'signature': {'class': f['class'], 'what': 'wrong-data-after-read-fault', 'delimiter': delim},
+                                       'witness': 'the file could not be read cleanly (%s): the reader neither failed nor returned the %d transactions of '
+                                                  'the clean read, it returned %d: %s' % (
+                                                      f.get('how') or 'invalid UTF-8 byte at offset %d' % f['offset'], len(ref), len(have), util.canon(have)[:300]),
+                                       'schedule': sched(f)})
+                continue
             res = parse(f['text'])
             sets['tuples'].add('%s|%s|%s|%s|%s|%s' % (laycls, lay['delimiter'], lay['decimal'],
                                                     (lay['sign'] or 'plain') + ('+neg' if lay['negate_setting'] else ''), f['class'], f['position']))
@@ -350,6 +430,9 @@ def execute(case, scratch):
                 keep = set(f['complete'])
                 want = [g for g in got if rid_of(g['description']) in keep]
                 have = [g for g in res['txns'] if rid_of(g['description']) in keep]
+                if len(have) == len(want) + 1 and have[-1] is res['txns'][-1] and want and not same_txn(have[-1], want[-1]):
+                    # the torn row itself (not judged): its shortened id token r13|3 can read as an earlier row's
+                    have = have[:-1]
                 if len(want) != len(have) or not all(same_txn(a, b) for a, b in zip(want, have)):
                     violations.append({'invariant': 'ISO', 'signature': {'class': 'truncate', 'what': 'complete-rows-differ', 'delimiter': delim},
                                        'witness': 'file cut at character %d: rows %s end before the cut; they gave %s, fault-free they give %s'
@@ -416,6 +499,110 @@ def replay(schedule, scratch):
     for v in res['violations']:
         v['schedule'] = dict(schedule, case=v['schedule']['case'])
     return {'violations': res['violations'], 'digest': res['digest']}
+
+
+def _line_starts(lay, rows):
+    """{row id: (start offset, record length)} in the rendering of `rows`."""
+    lines = st.render_lines(lay, rows)
+    hdr = 1 if lay['has_header'] else 0
+    out = {}
+    off = 0
+    for j, ln in enumerate(lines):
+        if j >= hdr:
+            out[rows[j - hdr]['id']] = (off, len(ln))
+        off += len(ln) + len(lay['eol'])
+    return out
+
+
+def _map_offset(lay, old_rows, new_rows, off):
+    """The character offset `off` of the old rendering, expressed in the new one (None when the record it fell into is gone)."""
+    old, new = _line_starts(lay, old_rows), _line_starts(lay, new_rows)
+    inside = None
+    for r in old_rows:
+        a, n = old[r['id']]
+        if a <= off:
+            inside = (r['id'], off - a)
+    if inside is None:
+        return off if not old_rows or off <= (len(st.header_line(lay)) if lay['has_header'] else 0) else None
+    rid, delta = inside
+    if rid not in new:
+        return None
+    return new[rid][0] + delta
+
+
+def rebuild(case, keep_ids):
+    """The same case over a subset of its rows: re-rendered file, re-derived single fault."""
+    lay = case['layout']
+    rows = [r for r in case['rows'] if r['id'] in keep_ids]
+    if not rows:
+        return None
+    text = st.render(lay, rows)
+    new = dict(case, rows=rows, text=text, expected=[st.expected_txn(lay, r, case['source']) for r in rows], faults=[])
+    new.pop('pair', None)
+    if not case['faults']:
+        return new
+    f = dict(case['faults'][0])
+    cls = f['class']
+    if cls == 'truncate':
+        cut = _map_offset(lay, case['rows'], rows, f['cut'])
+        if cut is None:
+            return None
+        starts = _line_starts(lay, rows)
+        f.update(cut=cut, text=text[:cut], complete=[r['id'] for r in rows if starts[r['id']][0] + starts[r['id']][1] + (
+            len(lay['eol']) if (r is not rows[-1] or lay['final_newline']) else 0) <= cut])
+        if not lay['final_newline'] and cut == len(text):
+            f['complete'] = [r['id'] for r in rows]
+    elif cls in ('read-fault', 'read-fault-once'):
+        how = dict(f['how'])
+        if how.get('after'):
+            a = _map_offset(lay, case['rows'], rows, how['after'])
+            if a is None or a <= 0:
+                return None
+            how['after'] = a
+        f['how'] = how
+    elif cls == 'bad-utf8':
+        if f['row'] not in keep_ids:
+            return None
+        clean = ''.join(ch if ord(ch) < 128 else {'É': 'E', 'Ü': 'U', '£': '$', '€': '$'}.get(ch, '~') for ch in text)
+        b = clean.encode('ascii')
+        tok = (' r%d' % f['row']).encode()
+        at = b.find(tok)
+        if at <= 0 or b.count(tok) != 1:
+            return None
+        old = f['bytes'].encode('latin-1')
+        f.update(clean=clean, offset=at, bytes=(b[:at] + old[f['offset']:f['offset'] + 1] + b[at:]).decode('latin-1'))
+    else:
+        raws = f.get('raws') or {}
+        if any(int(k) not in keep_ids for k in raws) or not raws:
+            return None
+        rows2 = [dict(r, raw=raws[str(r['id'])]) if str(r['id']) in raws else dict(r) for r in rows]
+        f['text'] = st.render(lay, rows2)
+    new['faults'] = [f]
+    return new
+
+
+def shrink_candidates(schedule):
+    case = schedule['case']
+    if case.get('pair') and not case['faults']:
+        return
+    ids = [r['id'] for r in case['rows']]
+    f = case['faults'][0] if case['faults'] else None
+    protect = set()
+    if f:
+        protect = {int(k) for k in (f.get('raws') or {})} | ({f['row']} if f.get('row') is not None else set())
+    n = len(ids)
+    chunk = max(1, n // 2)
+    while chunk >= 1:
+        for a in range(0, n, chunk):
+            keep = [x for j, x in enumerate(ids) if not (a <= j < a + chunk) or x in protect]
+            if len(keep) == n:
+                continue
+            new = rebuild(case, set(keep))
+            if new is not None:
+                yield dict(schedule, case=new)
+        if chunk == 1:
+            break
+        chunk //= 2
 
 
 def coverage(count, sets, samples, tier):
